@@ -48,7 +48,13 @@ Bases == <<
  [name |-> "callerlocal", vars |-> <<"seed", "acc", "n", "keep", "extra">>, funcs |-> <<"helper", "work">>,
   body |-> <<Func("helper", <<Param("seed", "int")>>, <<"int">>, <<Def1("acc", Bin("*", V("seed"), I(2))), RetS(<<V("acc")>>)>>),
              Func("work", <<Param("n", "int")>>, <<"int">>, <<Def1("keep", I(10)), Def1("extra", CallE("helper", <<V("n")>>)), RetS(<<Bin("+", V("keep"), V("extra"))>>)>>),
-             PrintS(<<CallE("work", <<I(3)>>), CallE("work", <<I(4)>>)>>)>>]
+             PrintS(<<CallE("work", <<I(3)>>), CallE("work", <<I(4)>>)>>)>>],
+ \* caller and callee use the SAME spelling for a local, a parameter and a loop variable; the caller's are live across the call
+ [name |-> "samelocal", vars |-> <<"acc", "val", "i">>, funcs |-> <<"inner", "outer">>,
+  body |-> <<Func("inner", <<Param("val", "int")>>, <<"int">>, <<Def1("acc", I(0)), For3(Def1("i", I(0)), CmpE("<", V("i"), V("val")), Inc("i"), <<Compound("acc", "+", I(2))>>), RetS(<<V("acc")>>)>>),
+             Func("outer", <<Param("val", "int")>>, <<"int">>, <<Def1("acc", I(100)), For3(Def1("i", I(0)), CmpE("<", V("i"), I(2)), Inc("i"), <<Compound("acc", "+", CallE("inner", <<Bin("+", V("val"), V("i"))>>))>>),
+                                                                RetS(<<Bin("+", V("acc"), V("val"))>>)>>),
+             PrintS(<<CallE("outer", <<I(1)>>), CallE("inner", <<I(2)>>)>>)>>]
 >>
 WorldBases == <<
  [name |-> "files", vars |-> <<"name", "body", "ok">>, funcs |-> <<>>,
@@ -91,9 +97,9 @@ FuncCasePairs == {Mk("C10/" \o AllBases[b].name \o "/fncase/" \o nm[1] \o "-" \o
 \* and share a long prefix, or that differ in a trailing digit: behaviour must not depend on the shape of a name
 ShapeNames == <<"path_h1", "col_h0", "low_h10", "x_rv0", "my_fa0", "a_fv0", "n_dv1", "q_ma0", "_h1x", "h1", "f1", "rv0", "x_len", "len_", "the_ret", "i_", "a__b", "x1_h22", "v_",
                 "forward", "iffy", "lenx", "printer", "returned", "inputs", "copy2", "range_", "truex", "nilly", "funcy", "vary", "switcher", "caseA", "defaultX", "breaker", "continued",
-                "importer", "elsewhere", "itoa_", "existsx", "readme", "writer", "panic2",
+                "importer", "elsewhere", "itoa_", "existsx", "readme", "writer", "panic2", "_acc", "_x", "__", "_1", "_tmp_", "A", "aA", "a_", "a1b2",
                 "a_very_long_identifier_name_that_goes_on_and_on_1", "a_very_long_identifier_name_that_goes_on_and_on_2", "Z9", "z_9_", "ONE", "camelCaseName", "snake_case_name">>
-ShapeBases == {"multi", "func", "loops", "slice", "string", "callerlocal", "arith"}
+ShapeBases == {"multi", "func", "loops", "slice", "string", "callerlocal", "arith", "samelocal"}
 ShapeOf(b) == UNION {{Mk("C10/" \o AllBases[b].name \o "/shape/" \o AllBases[b].vars[i] \o "/" \o ShapeNames[n], AllBases[b], [v |-> (AllBases[b].vars[i] :> ShapeNames[n]), f |-> Empty], IsWorld(AllBases[b]))
                       : n \in 1..Len(ShapeNames)} : i \in 1..Len(AllBases[b].vars)}
 Shape == UNION {ShapeOf(b) : b \in {k \in 1..Len(AllBases) : AllBases[k].name \in ShapeBases}}
